@@ -65,11 +65,14 @@ def gen_locked():
     return handlers
 
 
-def kani_cmd(name, target_dir, playback=False):
-    cmd = ["cargo", "kani", "-Z", "stubbing", "--no-assertion-reach-checks", "--target-dir", target_dir, "--exact",
-           "--harness", f"harness_gen::{name}"]
+def kani_cmd(name, target_dir, playback=False, cbmc_args=()):
+    chunk = gen.chunk_of(specmod.SPECS).get(name, "gen_k<chunk>")
+    cmd = ["cargo", "kani", "-Z", "stubbing", "--no-assertion-reach-checks", "--target-dir", target_dir, "--features", chunk,
+           "--exact", "--harness", f"{chunk}::{name}"]
     if playback:
         cmd += ["-Z", "concrete-playback", "--concrete-playback=print"]
+    if cbmc_args:
+        cmd += ["-Z", "unstable-options", "--cbmc-args"] + list(cbmc_args)
     return cmd
 
 
@@ -177,7 +180,7 @@ def run_harness(spec, tier):
     log_path = os.path.join(LOGS, f"{name}.log")
     timeout = spec["timeout"] * (3 if tier == "thorough" else 1)
     with Slot() as tdir:
-        rc, secs, to = run_limited(kani_cmd(name, tdir), log_path, timeout, spec["mem_gb"])
+        rc, secs, to = run_limited(kani_cmd(name, tdir, cbmc_args=spec.get("cbmc_args", ())), log_path, timeout, spec["mem_gb"])
         text = open(log_path, errors="replace").read()
         res = parse_log(text)
         res.update({"name": name, "wall_s": round(secs, 1), "rc": rc, "timed_out": to, "spec": spec, "playback": []})
@@ -185,7 +188,7 @@ def run_harness(spec, tier):
         if res["state"] == "failed" and not os.environ.get("VERIF_NO_PLAYBACK"):
             # counterexample extraction
             pb_log = os.path.join(LOGS, f"{name}.playback.log")
-            rc2, secs2, to2 = run_limited(kani_cmd(name, tdir, playback=True), pb_log, timeout, spec["mem_gb"])
+            rc2, secs2, to2 = run_limited(kani_cmd(name, tdir, playback=True, cbmc_args=spec.get("cbmc_args", ())), pb_log, timeout * 2, max(spec["mem_gb"], 16))
             res["playback"] = parse_playback(open(pb_log, errors="replace").read())
             res["playback_s"] = round(secs2, 1)
     return res
@@ -194,6 +197,8 @@ def run_harness(spec, tier):
 def classify(res, text):
     if res["timed_out"]:
         return "timeout"
+    if "ran out of memory" in text or "Out of memory" in text or "std::bad_alloc" in text:
+        return "oom"
     if res["verdict"] is None:
         if "error: internal compiler error" in text or "Kani unexpectedly panicked" in text:
             return "ice"
